@@ -176,6 +176,11 @@ static P_EMPTY_NAME: [(&str, Option<usize>); 2] = [("$ENV{}", Some(0)), ("", Non
 static P_BAD_FIRST: [(&str, Option<usize>); 2] = [("$ENV{-A}$ENV{.A}", Some(0)), ("", None)];
 static P_BAD_INNER: [(&str, Option<usize>); 2] = [("$ENV{A-}", Some(0)), ("", None)];
 static P_STRAY: [(&str, Option<usize>); 2] = [("$${}}$ENV${A}", Some(0)), ("$", None)];
+// a reference at the very start of the path (nothing copied before the first substitution)
+static P_LEAD: [(&str, Option<usize>); 2] = [("", Some(0)), ("/b", None)];
+static P_LEAD2: [(&str, Option<usize>); 4] = [("", Some(0)), ("", Some(0)), ("x/", Some(1)), ("", None)];
+static V_A0_B_UNSET: [SVar; 2] = [SVar { name: "A", set: true, len: 0 }, SVar { name: "B", set: false, len: 0 }];
+static P_ONLY: [(&str, Option<usize>); 2] = [("", Some(0)), ("", None)];
 // $ENV{$ENV{A}}: the inner reference is replaced, the result is not expanded again
 static P_NESTED: [(&str, Option<usize>); 2] = [("$ENV{", Some(0)), ("}", None)];
 
@@ -215,6 +220,14 @@ harnesses! {
     fn value_bad_inner() { body(&P_BAD_INNER, &V_A2, false) }
     #[kani::unwind(30)]
     fn value_stray() { body(&P_STRAY, &V_A2, false) }
+    #[kani::unwind(24)]
+    fn value_lead_empty() { body(&P_LEAD, &V_A0, false) }
+    #[kani::unwind(24)]
+    fn value_lead3() { body(&P_LEAD, &V_A3, false) }
+    #[kani::unwind(30)]
+    fn value_lead_empty_twice_then_unset() { body(&P_LEAD2, &V_A0_B_UNSET, false) }
+    #[kani::unwind(24)]
+    fn value_only_empty() { body(&P_ONLY, &V_A0, false) }
     #[kani::unwind(24)]
     fn value_nested() { body(&P_NESTED, &V_A3, false) }
     #[kani::unwind(24)]
